@@ -1,5 +1,6 @@
 """C10 - point scale factor and grid convergence (convert.psfandgridconv and its two callers)."""
 import ast
+from fractions import Fraction as F
 from .. import alg
 from ..alg import Rat, C
 from ..model import AnalysisError, stmt_text
@@ -413,6 +414,42 @@ def run(repo, rep):
     tr2.check_function(repo.func('geodepy.convert', 'psfandgridconv'))
     helper_rules(repo, rep)
     caller_rules(repo, rep)
+    # the two values are derivatives of the series C01 / C02 decide: the coefficient tables (alpha forward, beta inverse) and the objects
+    # that carry the projection and ellipsoid definitions ("of the projection and ellipsoid requested in the call") are part of this check
+    from . import c01, c02
+    common.ellipsoid_rules(repo, rep, projections=True)
+    c01.table_rules(repo, rep)
+    c02.table_rules(repo, rep)
+    guard_rules(repo, rep)
+
+
+def guard_rules(repo, rep):
+    """psfandgridconv refuses nothing the two conversions hand it: its raising tests are decided over the positions of the domain, with the
+    longitude as the inverse direction supplies it (folded into [-180, 180]) next to a central meridian on the other side of the
+    antimeridian (zone 60 just east of 180, zone 1 just west of it)"""
+    from .. import guards
+    f = repo.func('geodepy.convert', 'psfandgridconv')
+    ps = [p.name for p in f.params]
+    ev = Evaluator(repo, opaque={'alpha_coeff', 'beta_coeff', 'rect_radius'})
+    args = dict((ps[i], Rat.sym(n_)) for i, n_ in enumerate(['xi1', 'eta1', 'lat', 'lon', 'cm', 'conf_lat']))
+    from ..symcheck import sym_ellipsoid, sym_projection
+    args['ellipsoid'] = sym_ellipsoid(ev, repo, 'ellipsoid')
+    args['prj'] = sym_projection(ev, repo, 'prj')
+    try:
+        ev.call_function(f, args)
+    except RecursionError:
+        pass
+    domain = {'xi1': (F(-3, 2), F(3, 2)), 'eta1': (F(-1, 2), F(1, 2)), 'lat': (-80, 84), 'lon': (-180, 180), 'cm': (-177, 177), 'conf_lat': (F(-3, 2), F(3, 2))}
+
+    def near(pt):
+        if 'lon' in pt and 'cm' in pt:
+            d_ = abs(pt['lon'] - pt['cm']) % 360
+            return min(d_, 360 - d_) <= 30
+        return True
+    n = guards.guard_rule(rep, 'R-GUARD', f, ev.raise_conds, domain, 'the band of the projection: |lon - cm| up to 30 degrees measured on the circle (a longitude of -179.5 belongs to the meridian 177)',
+                          lambda nd: where(f, nd), constraint=near, extra_points={'lon': (-179.5, -177, -150, 150, 177, 179.5), 'cm': (-177, -171, 171, 177)})
+    if n == 0:
+        rep.holds('R-GUARD', 'R-GUARD::geodepy/convert.py::psfandgridconv::no-raising-test', where(f, f.node), 'psfandgridconv has no raising test of its own')
 
 
 class _Only(object):
